@@ -194,7 +194,7 @@ PROPS = {
     },
     "C20": {
         "lean": ["FsnVerif.Props.C20"],
-        "lean_support": ["FsnVerif.Model.Diff", "FsnVerif.Proofs.DiffLemmas", "FsnVerif.Proofs.DiffValid", "FsnVerif.Proofs.DiffSelf"],
+        "lean_support": ["FsnVerif.Model.Diff", "FsnVerif.Proofs.DiffLemmas", "FsnVerif.Proofs.DiffValid", "FsnVerif.Proofs.DiffSelf", "FsnVerif.Proofs.DiffGroups"],
         "stages": [{"name": "diff", "cmd": "scratch:diff", "what": "C20"}],
         "rule": "internal/ztest/diff.go copied verbatim into a scratch package with exported wrappers; matching blocks, opcodes, "
                 "grouped opcodes and the final Diff text compared with the Lean model exhaustively for all pairs of line "
